@@ -426,6 +426,64 @@ fn judge_case(c: &CCase) -> Verdict {
                 }
                 return v;
             }
+            // two disjoint chords active at once: releasing the keys of the first must not release the
+            // second one's action (its participants are all still down), and then everything goes up
+            let disjoint = c.chords.iter().enumerate().find(|(i, o)| *i != wi && o.keys & ch.keys == 0);
+            if let Some((oi, o)) = disjoint {
+                let mut sim = match Sim::new(&text) {
+                    Ok(s) => s,
+                    Err(e) => return Verdict::failed("harness:chord-config-rejected", e),
+                };
+                let okeys = mask_keys(o.keys);
+                let o_out = code_of(CHORD_OUT[oi]);
+                for i in &keys {
+                    sim.press(code_of(PART[*i]));
+                    sim.tick_n(1);
+                }
+                sim.tick_n(max_tmo(c) + 20);
+                for i in &okeys {
+                    sim.press(code_of(PART[*i]));
+                    sim.tick_n(1);
+                }
+                sim.tick_n(max_tmo(c) + 20);
+                let down_now = |sim: &Sim| {
+                    let mut os = OsState::default();
+                    for ev in &sim.outs {
+                        os.apply(ev);
+                    }
+                    os.keys.clone()
+                };
+                let d0 = down_now(&sim);
+                if d0.contains(&y) && d0.contains(&o_out) {
+                    let mut rel = keys.clone();
+                    if c.release_perm % 2 == 1 {
+                        rel.reverse();
+                    }
+                    for i in &rel {
+                        sim.release(code_of(PART[*i]));
+                        sim.tick_n(3);
+                    }
+                    sim.tick_n(max_tmo(c) + 40);
+                    let d1 = down_now(&sim);
+                    let what = format!("{text}chords ({}) and ({}) both active, the keys of the first released", keys.iter().map(|i| PART[*i]).collect::<Vec<_>>().join(" "), okeys.iter().map(|i| PART[*i]).collect::<Vec<_>>().join(" "));
+                    if d1.contains(&y) {
+                        return Verdict::failed("chord:released-later-than-its-participants", format!("{what}: its action is still down: {}", fmt_outs(&sim.outs)));
+                    }
+                    if !d1.contains(&o_out) {
+                        return Verdict::failed("chord:released-while-all-its-participants-are-down", format!("{what}: the action of the second went up although all its keys are down: {}", fmt_outs(&sim.outs)));
+                    }
+                    for i in &okeys {
+                        sim.release(code_of(PART[*i]));
+                        sim.tick_n(3);
+                    }
+                    sim.tick_n(max_tmo(c) + 40);
+                    if !down_now(&sim).is_empty() {
+                        return Verdict::failed("chord:key-left-down", format!("{what}, then the second's: {}", fmt_outs(&sim.outs)));
+                    }
+                    v.classes.push("two-disjoint-chords-active-at-once");
+                    return v;
+                }
+            }
         }
         6 if c.v2 => {
             // a key that takes part in 25 chords (more than any fixed-size candidate list):
@@ -690,7 +748,7 @@ impl TypedProp for C09 {
     fn info(&self) -> PropInfo {
         PropInfo {
             level: "exploration",
-            rule: "tables: defchords (v1) and defchordsv2 (v2) with 1-6 chords over participating keys a-d (overlapping chords, sub-chords, supersets, v2: both release behaviours, disabled layer), timeouts {8,30}, every chord action a distinct key. For one chord of the table: all its keys pressed with total span well below / T-2 / T+3, then released in a chosen order, optionally followed by a non-chord key. Oracles: (reference) within the timeout the chord's action appears exactly once and nothing else of the participants, the following key is not swallowed and comes after it, the action is released per the release rule and no later than the last participant; beyond the timeout the whole chord does not fire and keys are not swallowed; a single participant alone gives its own action once; all keys of the chord but the last (containing no chord), then a non-chord key and the last key in the same millisecond => every key's own action exactly once in the original order; on its disabled layer a v2 chord does not fire; two v2 chords that share keys, active at once (shared keys released and pressed again with the second chord's keys), leave nothing down after all releases; a key taking part in 25 chords (definition order rotated by the case): each fires exactly for its key set whichever key is pressed first; v1 chords with action (multi (layer-while-held ..) key): the layer, probed with another key after each release, is held until all participants are released; (metamorphic, exhaustive over orders) every permutation of the press order gives the same timestamped OS transitions as the sorted order (v1: the same timestamped presses), nothing is left down. Non-trivial: the table contains a sub- or super-chord of the exercised chord. Distinct: hash of the case.",
+            rule: "tables: defchords (v1) and defchordsv2 (v2) with 1-6 chords over participating keys a-d (overlapping chords, sub-chords, supersets, v2: both release behaviours, disabled layer), timeouts {8,30}, every chord action a distinct key. For one chord of the table: all its keys pressed with total span well below / T-2 / T+3, then released in a chosen order, optionally followed by a non-chord key. Oracles: (reference) within the timeout the chord's action appears exactly once and nothing else of the participants, the following key is not swallowed and comes after it, the action is released per the release rule and no later than the last participant; beyond the timeout the whole chord does not fire and keys are not swallowed; a single participant alone gives its own action once; all keys of the chord but the last (containing no chord), then a non-chord key and the last key in the same millisecond => every key's own action exactly once in the original order; on its disabled layer a v2 chord does not fire; two v2 chords that share keys, active at once (shared keys released and pressed again with the second chord's keys), leave nothing down after all releases; two disjoint v2 chords active at once: releasing the first one's keys releases its action and leaves the second one's down until its own keys are released; a key taking part in 25 chords (definition order rotated by the case): each fires exactly for its key set whichever key is pressed first; v1 chords with action (multi (layer-while-held ..) key): the layer, probed with another key after each release, is held until all participants are released; (metamorphic, exhaustive over orders) every permutation of the press order gives the same timestamped OS transitions as the sorted order (v1: the same timestamped presses), nothing is left down. Non-trivial: the table contains a sub- or super-chord of the exercised chord. Distinct: hash of the case.",
             assumptions: vec!["spans within 2 ms of the timeout are only checked metamorphically (the exact boundary convention differs between v1 and v2)".into()],
             extra: BTreeMap::new(),
         }
@@ -703,7 +761,7 @@ impl TypedProp for C09 {
             },
             exhaustive: false,
             distinct_by_construction: false,
-            required_classes: vec!["v1", "v2", "released-before-timeout", "outlasts-shorter-overlapping-chord", "within-timeout", "beyond-timeout", "permuted", "with-following-key", "overlapping-table", "single-participant", "disabled-layer", "interrupted-partial-chord", "two-chords-active-at-once", "key-in-25-chords", "v1-multi-with-layer"],
+            required_classes: vec!["v1", "v2", "released-before-timeout", "outlasts-shorter-overlapping-chord", "within-timeout", "beyond-timeout", "permuted", "with-following-key", "overlapping-table", "single-participant", "disabled-layer", "interrupted-partial-chord", "two-chords-active-at-once", "two-disjoint-chords-active-at-once", "key-in-25-chords", "v1-multi-with-layer"],
             hang_secs: 60,
         }
     }
